@@ -309,6 +309,14 @@ def templates(tier="quick"):
     T.append(scenario("dyndep_output_long_history/built", "template", [v], files=hfiles, ops=hops, init=[hb], depth=d,
                       tags=["dyndep", "recompaction", "built"]))
 
+    # T34 a restat statement with recorded dependencies whose command, after a manifest change, reports one dependency
+    # more while leaving its output untouched (what ninja trusts afterwards: recorded-deps-stale)
+    for kind in ("gcc", "msvc"):
+        def rv(name, hidden, kind=kind):
+            return Variant(name, [Stmt("obj", ex=["src"], hidden=hidden, deps=kind, restat=True, copy=True), Stmt("exe", ex=["obj"])])
+        T += _mk("restat_deps_%s_list_changes" % kind, [rv("v0", ["h1"]), rv("v1", ["h1", "h2"])], tags=["restat", "deps"], depth=d, touch=True,
+                 js=(1, 2), max_fault_stmts=1, files={"h2": "h2-v0\n"}, edits_during=False)
+
     # T32 declared sources that are missing and have no rule: as explicit, implicit, order-only input and as a validation,
     # of statements with and without work to do (C05: reported before any command runs)
     v = Variant("v0", [Stmt("a", ex=["s"]), Stmt("b", ex=["a"], im=["isrc"]), Stmt("c", ex=["t"], oo=["osrc"]),
